@@ -39,7 +39,10 @@ def stat_case(draw, nfmax=16, ndmax=24):
     specs = [draw(gen.spectrum()) for _ in range(min(npos, 3))]
     dtype = draw(st.sampled_from(["float64", "float32"]))
     depth = draw(st.one_of(st.none(), st.sampled_from([0.5, 3.0, 12.0, 40.0, 200.0, 5000.0]), st.floats(0.5, 5000.0)))
-    return dict(fg=fg, dg=dg, dims=dims, specs=specs, dtype=dtype, depth=depth)
+    # one case in four: the object first holds other coordinates/values, statistics are taken, then it is edited in place
+    warm = draw(st.one_of(st.none(), st.none(), st.none(), st.fixed_dictionaries(dict(
+        fs=st.sampled_from([0.5, 0.8, 1.25, 2.0, "sq"]), ds=st.floats(1.0, 359.0), amp=st.sampled_from([1.0, 3.0])))))
+    return dict(fg=fg, dg=dg, dims=dims, specs=specs, dtype=dtype, depth=depth, warm=warm)
 
 
 def _close(lib, ref, rtol, atol=0.0):
@@ -114,6 +117,24 @@ def check_stats(case, ctx):
     else:
         ctx.label("1D")
     ctx.label("ndims=%d" % len(dims), "depth=%s" % ("none" if depth is None else "finite"))
+    warm = case.get("warm")
+    if warm:
+        # "the dataset's own bin widths" are those of its current coordinates: take statistics while the object holds
+        # other frequencies/directions/values, then put the real ones in place on the same object
+        real = (da.freq.values.copy(), da.dir.values.copy() if has_dir else None, da.values.copy())
+        if len(f) > 1:
+            da["freq"] = real[0] ** 2 / real[0][0] if warm["fs"] == "sq" else real[0] * warm["fs"]
+        if has_dir:
+            da["dir"] = (real[1] + warm["ds"]) % 360.0
+        da.values = real[2] * warm["amp"]
+        with ctx.lib("statistics before the in-place edit"):
+            for m in ("hs", "tm01", "tm02", "sw", "mss") + (("dm", "dspr", "uss", "crsd") if has_dir else ()):
+                np.asarray(getattr(da.spec, m)())
+        da["freq"] = real[0]
+        if has_dir:
+            da["dir"] = real[1]
+        da.values = real[2]
+        ctx.label("after-in-place-edit")
     sp = da.spec
     lib = {}
     calls = {
